@@ -65,6 +65,25 @@ def to_json(x):
     return json.loads(json.dumps(x, cls=utype.JSONEncoder))
 
 
+def dangling_refs(doc):
+    """local references (#/$defs/NAME) of a document that its own $defs does not define"""
+    defs = doc.get("$defs") or {}
+    out = []
+
+    def walk(n):
+        if isinstance(n, dict):
+            r = n.get("$ref")
+            if isinstance(r, str) and r.startswith("#/$defs/") and r[len("#/$defs/"):] not in defs and r not in out:
+                out.append(r)
+            for v in n.values():
+                walk(v)
+        elif isinstance(n, list):
+            for v in n:
+                walk(v)
+    walk(doc)
+    return out
+
+
 def schema_of(T, mode=None, output=False, shared_defs=False):
     from utype.specs.json_schema.generator import JsonSchemaGenerator
     if shared_defs:
@@ -269,7 +288,9 @@ def judge_data(case):
     try:
         cls = dspec.build_decl(d)
         gm = mode if via == "generator" else None
-        in_schema = schema_of(cls, mode=gm, output=False)
+        # (with shared_defs both views are generated as self-contained documents by two generators, one after the other, as a
+        # caller publishing the input and the output schema of one class would do)
+        in_schema = schema_of(cls, mode=gm, output=False, shared_defs=bool(case.get("shared_defs")))
         out_schema = schema_of(cls, mode=gm, output=True, shared_defs=bool(case.get("shared_defs")))
     except HarnessError:
         raise
@@ -282,6 +303,11 @@ def judge_data(case):
         js_in, js_out = to_json(in_schema), to_json(out_schema)
         V.check_schema(js_in)
         V.check_schema(js_out)
+        for label, js in (("input", js_in), ("output", js_out)):
+            missing = dangling_refs(js)
+            if missing:
+                return {"status": "ok", "accepted": 0, "feats": feats,
+                        "fails": [(f"invalid-schema/dangling-ref/data/{label}-view", {"schema": oracle.short(js, 600), "missing": missing})]}
     except Exception as e:
         return {"status": "ok", "accepted": 0, "feats": feats,
                 "fails": [(f"invalid-schema/{type(e).__name__}/data", {"schema": oracle.short(in_schema, 500), "error": str(e)[:300]})]}
